@@ -766,6 +766,7 @@ instance LiveDistinct.dec : (w : World) → (ops : List Op) → Decidable (LiveD
       | some k => by unfold LiveDistinct; simp only [h]; infer_instance
       | none => by unfold LiveDistinct; simp only [h]; infer_instance
     | .newConn | .dgram .. | .timer .. | .transmit .. | .waitConn _ | .waitClosed _ | .close .. | .mkStream ..
+    | .cancelCaller ..
     | .write .. | .eof .. | .sdgram .. => by unfold LiveDistinct; infer_instance
 
 /-- what it takes for `P` to be kept by every atomic step of the fixed code (`g`: the invariant relies on
@@ -783,6 +784,7 @@ structure Pres (g : Bool) (P : Nat → Proto → Prop) : Prop where
   close : ∀ (ctx : Ctx) (s : PS) (tat : Option Nat) (tx : List Ev) (n : Nat), ctx.q = Quirks.fixed →
     P n s.p → P n (transmit ctx s tat tx).1.p
   mkS : ∀ (ctx : Ctx) (p : Proto) (sid : Nat) (n : Nat), ctx.q = Quirks.fixed → P n p → P n (createStream ctx p sid)
+  cancel : ∀ (p : Proto) (w : WaiterId) (n : Nat), P n p → P n (cancelCaller p w)
   write : ∀ (p : Proto) (sid : Nat) (d : Bytes) (n : Nat), P n p → P n ((write p sid d).getD p)
   eof : ∀ (p : Proto) (sid : Nat) (n : Nat), P n p → P n ((writeEof p sid).getD p)
   waitConn : ∀ (ctx : Ctx) (p : Proto) (n : Nat), ctx.q = Quirks.fixed → P n p → P (n + 1) (waitConnected ctx p n)
@@ -857,6 +859,7 @@ theorem step_ginv (w : World) (hq : w.q = Quirks.fixed) (h : GInv P w) (op : Op)
   | transmit c tat tx => exact ginv_callback hP w hq h c _ _ fun ctx s n hc => hP.txop ctx s tat tx n hc
   | close c tat tx => exact ginv_callback hP w hq h c _ _ fun ctx s n hc => hP.close ctx s tat tx n hc
   | mkStream c sid => exact ginv_callback hP w hq h c _ _ fun ctx s n hc => hP.mkS ctx s.p sid n hc
+  | cancelCaller c wd => exact ginv_callback hP w hq h c _ _ fun ctx s n _ => hP.cancel s.p wd n
   | write c sid d =>
     simp only [step]
     split
@@ -962,6 +965,11 @@ theorem presW : Pres false WJ where
   mkS := fun ctx p sid n _ h hv => by
     have hn := h (by rw [← createStream_vUid ctx p sid]; exact hv)
     simp only [createStream]; split <;> (apply hn.congr <;> simp [Proto.termSeen, Proto.hsSeen])
+  cancel := fun p w n h hv => by
+    revert hv
+    simp only [cancelCaller]; split
+    · intro hv; apply (h hv).congr <;> simp [Proto.termSeen, Proto.hsSeen]
+    · exact h
   write := fun p sid d n h hv => by
     revert hv
     simp only [write]; split
@@ -1063,6 +1071,8 @@ theorem presT : Pres false TJ where
     exact ⟨h2.1, by rw [h2.2]; simp⟩
   mkS := fun ctx p sid n _ h => by
     simp only [createStream]; split <;> exact h
+  cancel := fun p w n h => by
+    simp only [cancelCaller]; split <;> exact h
   write := fun p sid d n h => by
     simp only [write]; split
     · simpa using h
@@ -1450,6 +1460,10 @@ theorem presR : Pres false RJ where
       · simp only [e, if_false] at hg
         have := hr.inv.none_ sid' hg
         simpa [Proto.finSeen] using this
+  cancel := fun p w n h => by
+    simp only [cancelCaller]; split
+    · intro hv hs; exact (h hv hs).congr rfl rfl rfl
+    · exact h
   write := fun p sid d n h => by
     simp only [write]; split
     · simpa [RJ] using h
